@@ -1118,11 +1118,13 @@ impl Replayer {
                 let pad = format!("ad-p{}", u(args, "prop")).into_bytes();
                 let pad2 = pad.clone();
                 let prop_no = u(args, "prop");
+                let suite = self.w.suite;
                 let psk_id = args.get("arg").and_then(|a| a.as_str()).unwrap_or("").to_string();
                 let r = catch_unwind(AssertUnwindSafe(|| match (kind.as_str(), kp) {
                     (_, Some(k)) => g.propose_add(k, pad2.clone()),
                     ("gce", _) => g.propose_group_context_extensions(gce_list(prop_no), pad2.clone()),
                     ("custom", _) => g.propose_custom(custom_proposal(prop_no), pad2.clone()),
+                    ("reinit", _) => g.propose_reinit(Some(b"verif-group-next".to_vec()), mls_rs::ProtocolVersion::MLS_10, suite, Default::default(), pad2.clone()),
                     ("psk", _) => g.propose_external_psk(mls_rs::psk::ExternalPskId::new(psk_id.as_bytes().to_vec()), pad2.clone()),
                     _ => g.propose_remove(arg as u32, pad2.clone()),
                 }));
